@@ -5,7 +5,9 @@ PROP = 'C13'
 REPLAYERS = {'connection.Connection._send': 'replayers/connection.py',
              'connection.Connection._recv': 'replayers/connection.py',
              'connection.Connection._send_bytes': 'replayers/connection.py',
-             'connection.Connection._recv_bytes': 'replayers/connection.py'}
+             'connection.Connection._recv_bytes': 'replayers/connection.py',
+             'connection._ConnectionBase.send': 'replayers/connection.py',
+             'connection._ConnectionBase.recv': 'replayers/connection.py'}
 
 ASSUMPTIONS = [
     'os.write(h, buf): raises OSError(errno arbitrary) having written nothing, or writes a prefix of length n with '
@@ -172,6 +174,66 @@ def bytes_tobytes(ex, args, kw):
 
 def ext_memoryview(ex, args, kw):
     return args[0]
+
+
+def object_contracts(w, C, PROP, by):
+    """send(obj) / recv(): the object level -- one pickle, one framed message"""
+    from pyvc.shapes import SBytes
+    g = w.classes['g']
+    g.fields.update({'pk_arr': MapS(IntS, IntS), 'pk_len': IntS, 'ld_arr': MapS(IntS, IntS), 'ld_len': IntS, 'loads': IntS,
+                     'dumps': IntS})
+
+    def ext_dumps(ex, args, kw):
+        arr = MapS(IntS, IntS).fresh('pickle')
+        n = IntS.fresh('pickle_len')
+        ex.path.assume(n.e >= 0)
+        gset(ex, 'pk_arr', arr)
+        gset(ex, 'pk_len', n)
+        gset(ex, 'dumps', SV(IntS, gget(ex, 'dumps').e + 1))
+        return SBytes(arr.comps[0], z3.IntVal(0), n.e)
+
+    def ext_loadbuf(ex, args, kw):
+        bio = ex.force(args[-1], 'buffer')           # (_recv_bytes without a size limit never returns None)
+        gset(ex, 'ld_arr', ex.path.read_field(bio, 'arr'))
+        gset(ex, 'ld_len', ex.path.read_field(bio, 'len'))
+        gset(ex, 'loads', SV(IntS, gget(ex, 'loads').e + 1))
+        return SV(ValS, z3.Const(fresh_name('object'), Val))
+    w.spec_funcs['pickle_sent'] = lambda ex: SBytes(gget(ex, 'pk_arr').comps[0], z3.IntVal(0), gget(ex, 'pk_len').e)
+    w.spec_funcs['bytes_loaded'] = lambda ex: SBytes(gget(ex, 'ld_arr').comps[0], z3.IntVal(0), gget(ex, 'ld_len').e)
+    for q in ('connection.Connection._send_bytes', 'connection.Connection._recv_bytes'):
+        w.contracts[q] = by[q]
+    pk = {'reduction.ForkingPickler.dumps': ext_dumps, 'connection.ForkingPickler.dumps': ext_dumps,
+          'reduction.ForkingPickler.loadbuf': ext_loadbuf, 'connection.ForkingPickler.loadbuf': ext_loadbuf}
+    send_obj = Contract(
+        'connection._ConnectionBase.send', prop=PROP, params={'self': C, 'obj': ValS}, externals=pk,
+        requires={'wf': 'g.wlen >= 0 and g.dumps == 0'},
+        modifies=['g.wire', 'g.wlen', 'g.pk_arr', 'g.pk_len', 'g.dumps'],
+        ensures={
+            'one_pickle_sent_as_one_framed_message': 'g.dumps == 1 and g.wlen == old(g.wlen) + 4 + g.pk_len and '
+                                                     'wire_has(old(g.wlen), hdr(g.pk_len)) and '
+                                                     'wire_has(old(g.wlen) + 4, pickle_sent())',
+            'only_on_an_open_writable_connection': 'old(self._handle) is not None and old(self._writable)',
+            'earlier_messages_untouched': 'wire_keeps(old(g.wire), old(g.wlen))',
+        },
+        raises={'OSError': {'closed_or_read_only_rejected_before_any_io':
+                            'implies(old(self._handle) is None or not old(self._writable), g.wlen == old(g.wlen) and g.dumps == 0)',
+                            'earlier_messages_untouched': 'wire_keeps(old(g.wire), old(g.wlen))'},
+                'StructError': {'beyond_framing_limit_nothing_sent': 'g.wlen == old(g.wlen)'}},
+    )
+    recv_obj = Contract(
+        'connection._ConnectionBase.recv', prop=PROP, params={'self': C}, externals=pk,
+        requires={'wf': 'g.rpos >= 0 and g.send >= g.rpos and g.loads == 0'},
+        modifies=['g.rpos', 'self._readable', 'self._handle', 'g.ld_arr', 'g.ld_len', 'g.loads'],
+        returns=ValS, lets={'n': 'stream_hdr(old(g.rpos))'},
+        ensures={
+            'exactly_the_next_message_is_unpickled_once': 'g.loads == 1 and g.ld_len == ite(n > 0, n, 0) and '
+                                                          'stream_is(old(g.rpos) + 4, bytes_loaded()) and '
+                                                          'g.rpos == old(g.rpos) + 4 + ite(n > 0, n, 0)',
+            'only_on_an_open_readable_connection': 'old(self._handle) is not None and old(self._readable)',
+        },
+        raises={'OSError': {'nothing_unpickled': 'g.loads == 0'}, 'EOFError': {'nothing_unpickled': 'g.loads == 0'}},
+    )
+    return [send_obj, recv_obj]
 
 
 def build(w):
@@ -342,7 +404,8 @@ def build(w):
                  'and g.rpos == old(g.rpos) + 8 + n1 + n2'},
         raises={'OSError': {'t': 'True'}, 'EOFError': {'t': 'True'}},
     )
-    return [send, recv, send_bytes_, recv_bytes_, pub_send, pub_recv, lem_send, lem_recv]
+    by = {c.qualname: c for c in (send_bytes_, recv_bytes_)}
+    return [send, recv, send_bytes_, recv_bytes_, pub_send, pub_recv, lem_send, lem_recv] + object_contracts(w, C, PROP, by)
 
 MANIFEST_ENTRY = {
     'text': 'Proof (unbounded, loop invariants): Connection._send writes every byte of the buffer exactly once, in order, after '
@@ -353,8 +416,11 @@ MANIFEST_ENTRY = {
             'threshold and refuses lengths beyond the framing limit before any I/O; _recv_bytes returns the framed message or '
             'refuses an oversized one after the header; send_bytes/recv_bytes reject invalid windows, negative limits, closed or '
             'wrong-direction handles before any I/O and an oversized message leaves the connection unreadable.  Order and '
-            'message boundaries for consecutive messages are two proof scripts over those contracts (induction step).',
+            'message boundaries for consecutive messages are two proof scripts over those contracts (induction step).  The object '
+            'level: send(obj) pickles once and puts exactly that pickle on the wire as one framed message, only on an open '
+            'writable connection; recv() hands exactly the bytes of the next message to the unpickler, once, and consumes '
+            'exactly that message.',
     'note': 'Kernel FIFO delivery, struct.pack/unpack inverse and memoryview byte semantics are assumed; recv_bytes_into, '
-            'send()/recv() pickling, poll/wait and the Windows classes are not under contract.  When only a loop-invariant '
+            'poll/wait and the Windows classes are not under contract; pickle itself is an assumed contract.  When only a loop-invariant '
             'obligation fails, a bounded search (messages of 0..5 bytes, <= 4 short operations) looks for a failing input on the real code.',
 }
